@@ -159,3 +159,154 @@ Example C20_monitor_flags_bus_write_of_hardware_bits : nth 1 (ex_trace false 429
 Proof. vm_compute. reflexivity. Qed.
 Example C20_monitor_flags_missing_hardware_update : nth 2 (ex_trace false 4095 true 4095) true = false.
 Proof. vm_compute. reflexivity. Qed.
+
+(** ** ALL register-map layouts (Models/AxiLayout.v: the address computation, decode and write masking of
+       std.reg / connect_addr_map as coded; trees of registers, arrays and nested register files) *)
+From Cohdl Require Import Models.AxiLayout Models.AxiLayoutProofs.
+
+(** (i) nesting composes: relocating any subtree by [d] relocates every register in it by [d] ... *)
+Theorem C20_layout_relocation : forall n base d, flat (base + d) n = map (shift d) (flat base n).
+Proof. exact flat_shift. Qed.
+Print Assumptions C20_layout_relocation.
+
+(** ... so the registers of a register file are its members' registers moved by the member offsets (register files
+    inside register files, arrays inside register files at non-zero offsets), an array's are its element's moved
+    by index * step ... *)
+Theorem C20_layout_regfile_members : forall wc ms base,
+  flat base (File wc ms) = flat_map (fun m => map (shift (fst m)) (flat base (snd m))) ms.
+Proof. exact flat_member. Qed.
+Print Assumptions C20_layout_regfile_members.
+
+Theorem C20_layout_array_elements : forall stop step e base,
+  flat base (Arr stop step e) = flat_map (fun k => map (shift k) (flat base e)) (arange stop step).
+Proof. exact flat_array. Qed.
+Print Assumptions C20_layout_array_elements.
+
+(** ... and the absolute offset of a register is exactly the sum of the offsets along its path
+    ([resolve]: member offsets and index * step added up along a path of member / element indices) *)
+Theorem C20_layout_offset_is_path_sum : forall n p base z wc k,
+  resolve n p = Some (z, wc, k) -> In (mkObj (base + z) wc k) (flat base n).
+Proof. exact resolve_sound. Qed.
+Print Assumptions C20_layout_offset_is_path_sum.
+
+Theorem C20_layout_every_register_has_a_path : forall n base o, In o (flat base n) ->
+  exists p, resolve n p = Some (o_off o - base, o_wc o, o_kind o).
+Proof. exact resolve_complete. Qed.
+Print Assumptions C20_layout_every_register_has_a_path.
+
+Example C20_layout_path_nonvacuous :
+  resolve ex_root [1%nat; 0%nat; 1%nat] = Some (12, 1, RMemWord)     (* file@8 / array@0 / element 1 * step 4 *)
+  /\ abs_offsets ex_root = [0; 8; 12; 20; 32; 40] /\ accepted ex_root = true
+  /\ abs_offsets (File None [(8, File (Some 2) [(4, File (Some 1) [(0, Leaf 1 RMemWord)])])]) = [12].
+Proof. vm_compute. repeat split; reflexivity. Qed.
+
+(** (ii) in a map the code accepts (its local checks and the neighbour check of _flatten_) no two registers contain
+    one address, and the absolute offsets are pairwise distinct *)
+Theorem C20_layout_no_two_registers_at_one_address : forall root a i j x y, accepted root = true ->
+  nth_error (regs root) i = Some x -> nth_error (regs root) j = Some y -> in_ext x a -> in_ext y a -> i = j.
+Proof. exact accepted_disjoint. Qed.
+Print Assumptions C20_layout_no_two_registers_at_one_address.
+
+Theorem C20_layout_offsets_distinct : forall root, accepted root = true -> NoDup (offsets_of root).
+Proof. exact accepted_offsets_nodup. Qed.
+Print Assumptions C20_layout_offsets_distinct.
+
+Theorem C20_layout_registers_word_aligned : forall n base, local_ok n = true -> base mod stride = 0 -> aligned (flat base n).
+Proof. exact local_ok_aligned. Qed.
+Print Assumptions C20_layout_registers_word_aligned.
+
+(** overlapping / unaligned / out-of-parent maps are not accepted (the hypotheses above are not vacuous either way) *)
+Example C20_layout_accept_nonvacuous :
+  accepted ex_root = true
+  /\ accepted (File (Some 4) [(4, Leaf 1 RMemWord); (4, Leaf 1 RMemWord)]) = false
+  /\ accepted (File (Some 4) [(2, Leaf 1 RMemWord)]) = false
+  /\ accepted (File (Some 1) [(4, Leaf 1 RMemWord)]) = false
+  /\ accepted (File (Some 8) [(0, Arr 10 4 (Leaf 1 RMemWord)); (8, Leaf 1 RMemWord)]) = false.
+Proof. vm_compute. repeat split; reflexivity. Qed.
+
+(** (iii) decode: both branches of _contains_addr_ are the range test; an address selects register k iff it lies in
+    register k's words, and nothing iff it lies in no register *)
+Theorem C20_layout_contains_is_range : forall o a, contains o a = true <-> in_ext o a.
+Proof. exact contains_spec. Qed.
+Print Assumptions C20_layout_contains_is_range.
+
+Theorem C20_layout_decode_exact : forall root a k, accepted root = true ->
+  (decode root a = Some k <-> exists o, nth_error (regs root) k = Some o /\ in_ext o a).
+Proof. exact decode_some_iff. Qed.
+Print Assumptions C20_layout_decode_exact.
+
+Theorem C20_layout_decode_unmapped : forall root a,
+  decode root a = None <-> (forall o, In o (regs root) -> ~ in_ext o a).
+Proof. exact decode_none_iff. Qed.
+Print Assumptions C20_layout_decode_unmapped.
+
+(** one-word registers: register k is selected iff the address with its two low bits dropped is k's absolute offset *)
+Theorem C20_layout_decode_register : forall root a k, accepted root = true -> Forall (fun o => o_wc o = 1) (regs root) ->
+  (decode root a = Some k <-> nth_error (offsets_of root) k = Some (stride * (a / stride))).
+Proof. exact decode_register_iff. Qed.
+Print Assumptions C20_layout_decode_register.
+
+(** the decode of the explored monitor (AxiSpec.reg_at over the layout's offsets) is the as-coded decode *)
+Theorem C20_layout_monitor_decode_agrees : forall root a, accepted root = true -> Forall (fun o => o_wc o = 1) (regs root) ->
+  reg_at (offsets_of root) a O = decode root a.
+Proof. exact monitor_decode_agrees. Qed.
+Print Assumptions C20_layout_monitor_decode_agrees.
+
+Example C20_layout_decode_nonvacuous :
+  map (decode ex_root) [0; 3; 4; 13; 20; 36; 47] = [Some 0%nat; Some 0%nat; None; Some 2%nat; Some 3%nat; None; None]
+  /\ forallb (fun o => o_wc o =? 1) (regs ex_root) = true
+  /\ decode (File None [(4, Leaf 3 RRange)]) 15 = Some 0%nat /\ decode (File None [(4, Leaf 3 RRange)]) 16 = None.
+Proof. vm_compute. repeat split; reflexivity. Qed.
+
+(** (iv) field layout and write mask *)
+Theorem C20_layout_fields_inside_word : forall fs f, fields_ok fs = true -> In f fs -> field_wf f.
+Proof. exact fields_ok_wf. Qed.
+Print Assumptions C20_layout_fields_inside_word.
+
+Theorem C20_layout_fields_disjoint : forall fs i, fields_ok fs = true ->
+  (length (filter (fun f => in_range f i) fs) <= 1)%nat.
+Proof. exact fields_disjoint. Qed.
+Print Assumptions C20_layout_fields_disjoint.
+
+Theorem C20_layout_wmask_is_union_of_writable_fields : forall fs i,
+  (forall f, In f fs -> 0 <= f_off f /\ 0 <= f_width f) -> 0 <= i ->
+  Z.testbit (wmask (RRegister fs)) i = existsb (fun f => is_mem (f_kind f) && in_range f i) fs.
+Proof. exact wmask_spec. Qed.
+Print Assumptions C20_layout_wmask_is_union_of_writable_fields.
+
+Theorem C20_layout_register_write_exact : forall fs old merged i, fields_ok fs = true -> 0 <= i ->
+  Z.testbit (reg_write (RRegister fs) old merged) i
+  = if Z.testbit (wmask (RRegister fs)) i then Z.testbit merged i
+    else Z.testbit (rmask (RRegister fs)) i && Z.testbit old i.
+Proof. exact reg_write_spec. Qed.
+Print Assumptions C20_layout_register_write_exact.
+
+(** (v) a bus write changes exactly the strobed bytes inside the write mask *)
+Theorem C20_layout_bus_write_exact : forall k old data strb i, kind_ok k = true -> 0 <= i < 32 ->
+  Z.testbit (bus_write k old data strb) i
+  = if Z.testbit strb (i / 8) && Z.testbit (wmask k) i then Z.testbit data i
+    else Z.testbit (rmask k) i && Z.testbit old i.
+Proof. exact bus_write_spec. Qed.
+Print Assumptions C20_layout_bus_write_exact.
+
+(** the as-coded register write is the reference write of the explored monitor, with this layout's masks *)
+Theorem C20_layout_bus_write_is_monitor_merge : forall k old data strb, kind_ok k = true -> no_padding k old ->
+  bus_write k old data strb = merge_masked old data strb (wmask k).
+Proof. exact bus_write_is_merge_masked. Qed.
+Print Assumptions C20_layout_bus_write_is_monitor_merge.
+
+Theorem C20_layout_map_write_is_monitor_write : forall root st a data strb,
+  accepted root = true -> Forall (fun o => o_wc o = 1) (regs root) ->
+  Forall (fun o => kind_ok (o_kind o) = true) (regs root) ->
+  (forall k o, nth_error (regs root) k = Some o -> no_padding (o_kind o) (nth k st 0)) ->
+  map_write root st a data strb = ref_write (offsets_of root) (wmasks_of root) st a data strb.
+Proof. exact map_write_is_ref_write. Qed.
+Print Assumptions C20_layout_map_write_is_monitor_write.
+
+Example C20_layout_write_nonvacuous :
+  kind_ok ex_freg = true /\ wmask ex_freg = 4095 /\ rmask ex_freg = 16977919
+  /\ no_padding ex_freg 16977919
+  /\ bus_write ex_freg 16977919 0 5 = 16977664          (* bytes 0 and 2 strobed: m cleared, cnt (hardware) kept *)
+  /\ fields_ok [mkField KMemField 0 8; mkField KField 7 1] = false
+  /\ fields_ok [mkField KMemField 30 3] = false.
+Proof. vm_compute. repeat split; reflexivity. Qed.
